@@ -1,7 +1,14 @@
 """C08: a PyPI resolution graph is a consistent pip solution.
 Seeded universes over the pools of PipModel.tla (specifiers of every operator, two prereleases, markers over python_version /
 sys_platform / os_name / extra, extras, cycles through the root, conflicts forcing backtracking, at most one requirement per
-(dependent version, package)) -> real PyPI resolver over a LocalClient -> TLC PipTrace evaluates PipModel!PipViolations."""
+(dependent version, package)) -> real PyPI resolver over a LocalClient -> TLC PipTrace evaluates PipModel!PipViolations.
+Second source of universes: PipResolve.tla models the resolver itself (resolvelib's state stack, criteria that keep every
+requirement with the version that declared it, preference key, pin / replace-in-place, backtracking with incompatibilities,
+graph building) as a state machine over match tables obtained from util/semver; TLC PipResolveMC explores it on EVERY universe
+of a small family, checks bounded rounds, stack shape, that every final pin is a candidate and that a returned graph breaks C08
+only through the recorded deviations, and emits each universe with the model's result; the real resolver is run on all of them,
+judged by the same laws and compared with the model (information).  PipResolveMC_strict.cfg states C08 on the model without
+the deviations and is EXPECTED to fail: the counterexample is the design-level form of the recorded findings."""
 import json, os, random, time
 import vlib
 
@@ -47,8 +54,8 @@ def gen_universe(rng, tb):
             vers.append({"v": v, "deps": deps})
         uni.append({"name": nm_, "versions": vers})
     rootdeps = []
-    while len(rootdeps) < 2:
-        rootdeps = [d for d in mkdeps("root") if d["name"] != "root"] + rootdeps
+    while len(rootdeps) < 2:      # at most one requirement per (dependent version, package): C08's domain
+        rootdeps += [d for d in mkdeps("root") if d["name"] != "root" and d["name"] not in {x["name"] for x in rootdeps}]
     # the root package has other versions with requirements of their own: they must never leak into the graph
     rv = rng.choice(ROOTV)
     uni.append({"name": "root", "versions": [{"v": v, "deps": rootdeps if v == rv else [d for d in mkdeps("root") if d["name"] != "root"]} for v in ROOTV]})
@@ -75,14 +82,32 @@ def run(ctx):
     else:
         rng = random.Random(ctx.seed * 49979687 + 3)
         cases = []
-        for _ in range(2500 if ctx.tier == "quick" else 40000):
+        for _ in range(5000 if ctx.tier == "quick" else 60000):
             uni, root = gen_universe(rng, tb)
             cases.append({"universe": uni, "root": root})
+    pr_states = pr_gen = nmodel = 0
+    design_cex = None
+    if not ctx.replay:
+        matchf = os.path.join(wdir, "match.json")
+        vlib.run_harness(vh, ["pipmatch", tablesf, matchf])
+        modelf = os.path.join(wdir, "model_cases.raw")
+        rm = vlib.tlc("PipResolveMC", os.path.join(vlib.SPEC, "PipResolveMC_%s.cfg" % ctx.tier), wdir, env={"VERIF_OUT": modelf, "VERIF_MATCH": matchf}, workers=12, timeout=2400, heap="12g")
+        vlib.tlc_must_pass(rm, "PipResolveMC (bounded rounds, stack shape, final pins are candidates, C08 laws up to the recorded deviations - on the algorithm model)")
+        pr_states, pr_gen = rm.distinct, rm.generated
+        mcases = vlib.read_ndjson(modelf)
+        nmodel = len(mcases)
+        cases = [{"universe": c["universe"], "root": c["root"], "model": c["model"]} for c in mcases] + cases
+        if ctx.tier == "thorough":
+            rn = vlib.tlc("PipResolveMC", os.path.join(vlib.SPEC, "PipResolveMC_strict.cfg"), wdir, env={"VERIF_OUT": os.path.join(wdir, "unused.raw"), "VERIF_MATCH": matchf}, workers=1, timeout=1800, heap="8g")
+            if rn.error:
+                raise vlib.Trouble("PipResolveMC_strict: %s" % rn.error)
+            design_cex = "TLC violates DoneStrict on the algorithm model after %d distinct states (expected: the recorded deviations exist at design level)" % rn.distinct if rn.violation else \
+                         "DoneStrict holds on the algorithm model (the design-level form of the findings is gone)"
     casef = os.path.join(wdir, "cases.ndjson")
     obsf = os.path.join(wdir, "obs.ndjson")
     vlib.write_ndjson(casef, cases)
     vlib.run_harness(vh, ["pip", tablesf, casef, obsf], timeout=3000)
-    states, gen, rej, lines = vlib.tlc_chunks("PipTrace", os.path.join(vlib.SPEC, "PipTrace.cfg"), wdir, obsf, 400 if ctx.tier == "quick" else 2000,
+    states, gen, rej, lines = vlib.tlc_chunks("PipTrace", os.path.join(vlib.SPEC, "PipTrace.cfg"), wdir, obsf, 1300 if ctx.tier == "quick" else 4000,
                                               "PipTrace", parallel=4, workers=4)
     verdict = vlib.Verdict(pid)
     resolved = nontrivial = gerr = err = info = 0
@@ -98,7 +123,12 @@ def run(ctx):
             gerr += 1
         else:
             err += 1
+    model_diff = []
     for idx, x in rej:
+        if x["law"].endswith("algorithm-model"):
+            o = json.loads(lines[idx - 1])
+            model_diff.append({"law": x["law"], "universe": o["universe"], "graph": o["graph"], "gerr": o["gerr"], "model": o.get("model")})
+            continue
         if x["law"].startswith("info-"):
             info += 1
             continue
@@ -120,14 +150,19 @@ def run(ctx):
         print("replay: case no longer fails on the current tree")
         return 0
     rc = verdict.finish(wdir)
+    if model_diff:
+        json.dump(model_diff[:20], open(os.path.join(wdir, "model_divergence.json"), "w"), indent=1)
+        print("NOTE: the real resolver differs from the algorithm model PipResolve.tla on %d of %d family universes (not a verdict; see %s)"
+              % (len(model_diff), nmodel, os.path.join(wdir, "model_divergence.json")))
     s = next(json.loads(l) for l in lines if json.loads(l)["ok"])
-    cov = {"states": states + r0.distinct, "transitions": gen + r0.generated, "traces_validated_against_impl": resolved, "evaluations": len(lines),
+    cov = {"states": states + r0.distinct + pr_states, "transitions": gen + r0.generated + pr_gen, "traces_validated_against_impl": resolved, "evaluations": len(lines),
            "distinct_nontrivial": nontrivial,
-           "rule": "seeded PyPI universes over the pools of PipModel.tla; non-trivial = error-free graph with >= 4 nodes; %d resolutions returned a "
+           "rule": "every universe of the PipResolveMC family (TLC-enumerated, with the algorithm model's result) + seeded PyPI universes over the pools of PipModel.tla; non-trivial = error-free graph with >= 4 nodes; %d resolutions returned a "
                    "graph-level error and %d a resolver error (neither judged: the property is conditional); %d edges were not declared by the selected "
                    "version of their source (informational, outside C08's wording)" % (gerr, err, info),
            "samples": [{"root": s["root"], "packages": len(s["universe"]), "graph": s["graph"]}],
-           "known_findings_hit": {k: v[0] for k, v in verdict.hits.items()}, "spec_divergence_info": info, "exhaustive": False}
+           "known_findings_hit": {k: v[0] for k, v in verdict.hits.items()}, "spec_divergence_info": info, "exhaustive": False,
+           "algorithm_model": {"family_universes": nmodel, "states": pr_states, "real_resolver_differs_on": len(model_diff), "c08_without_deviations_on_the_model": design_cex}}
     vlib.write_evidence(pid, ctx.tier, ctx.seed, "model_checking", cov, time.time() - t0, violations=len(verdict.violations),
                         assumptions=["TLC 1.8.0", "PEP 440 order and specifier semantics from Order.tla / Ranges.tla", "marker truth from PipModel!MEval over the "
                                      "fixed environment (python 3.9.6, linux, posix)", "pip's prerelease rule: a prerelease is acceptable when the specifier names one or no final release satisfies"])
